@@ -39,6 +39,8 @@ def check(ctx: Ctx) -> None:
     check_filtered_positions(ctx, 'C10.e', [BASE, ALGS], floor=1)
     from ..idioms import check_per_iteration_leaks
     check_per_iteration_leaks(ctx, 'C10.f', [BASE, ALGS], floor=3)
+    from ..idioms import check_accumulators_initialised
+    check_accumulators_initialised(ctx, 'C10.g', [BASE, ALGS], floor=2)
     ctx.rule('C10.a', 'DSF: no derived solver quantity is DIRTY at a normal exit of any public entry point', floor=100)
     for cname in IA.classes:
         analyse_class(ctx, 'C10.a', IA, cname)
